@@ -600,3 +600,133 @@ def problems(profile: Profile = SEQ_FULL):
         return Gen(draw, profile).problem()
 
     return strat()
+
+
+# ---------------------------------------------------------------- temporal layer
+
+
+class TGen(Gen):
+    """temporal problems: durative (and instantaneous) actions, timed effects / goals."""
+
+    def dur_bound(self, scope, allow_fluent=True):
+        k = self.i(0, 9)
+        if k < 7 or not allow_fluent:
+            return self.pick([["i", 1], ["i", 2], ["i", 3], ["r", "1/2"], ["r", "3/2"], ["i", 4]])
+        nums = [f for f in self.fluents if f["type"] != "bool" and f["type"][0] in ("int", "real") and not f["params"]]
+        if nums and k < 9:
+            return ["fl", self.pick(nums)["name"]]
+        ints = [p for p in scope["params"] if p[1] != "bool" and p[1][0] == "int"]
+        if ints:
+            return ["par", self.pick(ints)[0]]
+        return ["i", 2]
+
+    def gen_duration(self, scope):
+        lo = self.dur_bound(scope)
+        m = self.i(0, 9)
+        if m < 4:
+            return {"lo": lo, "hi": lo, "lopen": False, "ropen": False}
+        if lo[0] in ("i", "r"):
+            from fractions import Fraction as F
+
+            hi_v = F(str(lo[1])) + self.pick([F(1), F(2), F(1, 2)])
+            hi = ["i", int(hi_v)] if hi_v.denominator == 1 else ["r", str(hi_v)]
+        else:
+            hi = ["+", lo, ["i", self.i(1, 2)]]
+        return {"lo": lo, "hi": hi, "lopen": self.b(0.4), "ropen": self.b(0.4)}
+
+    def gen_interval(self):
+        # NOTE: the kind computation flags an interval with exactly one delayed end as
+        # EXTERNAL_CONDITIONS_AND_EFFECTS (unsupported by the validators), so either both ends
+        # are delayed or none is.
+        k = self.i(0, 9)
+        d = lambda: self.pick(["1/2", 1, "1/2"])
+        if k < 2:
+            return [["s", 0], ["s", 0], False, False]
+        if k < 4:
+            return [["e", 0], ["e", 0], False, False]
+        if k < 6:
+            return [["s", 0], ["e", 0], self.b(0.5), self.b(0.5)]
+        if k < 8:
+            return [["s", d()], ["e", d()], self.b(0.4), self.b(0.3)]
+        if k < 9:
+            x = d()
+            return [["s", x], ["s", x], False, False]
+        return [["s", "1/2"], ["s", self.pick([1, "3/2"])], self.b(0.5), False]
+
+    def gen_durative(self, idx):
+        nparams = self.i(0, 1)
+        params = []
+        for k in range(nparams):
+            if self.p.int_params and self.b(0.3):
+                params.append([f"p{k}", ["int", 1, 2]])
+            else:
+                params.append([f"p{k}", ["user", self.pick(self.types)[0]]])
+        scope = {"params": [(n, t) for n, t in params], "vars": []}
+        conds = [{"iv": self.gen_interval(), "e": self.bool_expr(scope, self.i(0, 1))} for _ in range(self.i(0, 3))]
+        effs, prev = [], []
+        for _ in range(self.i(1, 3)):
+            r = self.gen_effect(scope, prev)
+            if r is None:
+                continue
+            e, f = r
+            e["t"] = self.pick([["s", 0], ["e", 0], ["e", 0], ["s", "1/2"], ["e", "1/2"], ["s", 1]])
+            effs.append(e)
+            prev.append(f)
+        return {"name": self.name("d"), "params": params, "dur": self.gen_duration(scope), "conds": conds, "effs": effs}
+
+    def temporal_problem(self):
+        self.gen_types()
+        self.gen_fluents()
+        self.gen_ifuns()
+        init = self.gen_init()
+        actions = [self.gen_durative(k) for k in range(self.i(1, 2))]
+        if self.b(0.5):
+            actions.append(self.gen_action(9))
+        top = {"params": [], "vars": []}
+        goals = [self.bool_expr(top, self.i(0, 1)) for _ in range(self.i(0, 2))]
+        timed_effects = []
+        for _ in range(self.i(0, 2) if self.b(0.5) else 0):
+            r = self.gen_effect(top, [])
+            if r is not None and r[0]["kind"] == "assign" and not r[0]["forall"]:
+                e = r[0]
+                e["t"] = ["gs", self.pick([1, 2, "1/2", 3, "5/2"])]
+                timed_effects.append(e)
+        timed_goals = []
+        for _ in range(self.i(0, 2) if self.b(0.4) else 0):
+            a = self.pick([0, 1, "1/2", 2])
+            k = self.i(0, 3)
+            from fractions import Fraction as F
+
+            if k == 0:
+                iv = [["gs", a], ["gs", a], False, False]
+            elif k == 1:
+                iv = [["gs", a], ["gs", str(F(str(a)) + self.pick([F(1), F(2), F(1, 2)]))], self.b(0.5), self.b(0.3)]
+            else:
+                iv = [["gs", a], ["ge", 0], self.b(0.5), False]
+            timed_goals.append({"iv": iv, "e": self.bool_expr(top, self.i(0, 1))})
+        return {
+            "types": [list(t) for t in self.types],
+            "objects": [list(o) for o in self.objects],
+            "fluents": self.fluents,
+            "ifuns": self.ifuns,
+            "init": init,
+            "actions": actions,
+            "goals": goals,
+            "traj": [],
+            "timed_effects": timed_effects,
+            "timed_goals": timed_goals,
+        }
+
+
+TEMPORAL = Profile(
+    ifuns=False, bounded=False, invariants=False, undefined=False, max_fluents=4, max_objects=3, max_arity=1,
+    quantifiers=True, nested_fluent_args=False, forall_effects=True, division=False,
+)
+
+
+def temporal_problems(profile: Profile = TEMPORAL):
+    @st.composite
+    def strat(draw):
+        return TGen(draw, profile).temporal_problem()
+
+    return strat()
